@@ -1,11 +1,430 @@
 /-
   C01 — opening and saving preserves every reachable part and relationship.
-  Model: `Model/Opc.lean`.  (Theorems are added below as they are proved.)
+  Model: `Model/Opc.lean`.
 -/
 import PptxModel.Model.Opc
+import PptxModel.Props.C19
 namespace Pptx.C01
-open Pptx Pptx.Opc
+open Pptx Pptx.Opc Pptx.PackUri
 
-theorem placeholder_true : True := trivial
+/-! ### each part is written exactly once -/
+
+theorem iterParts_nodup (L : Loaded) (fuel : Nat) (visited : List Str) (todo : List RelX)
+    (h : visited.Nodup) : (iterParts L fuel visited todo).Nodup := by
+  induction fuel generalizing visited todo with
+  | zero => simpa [iterParts] using h
+  | succ n ih =>
+    cases todo with
+    | nil => simpa [iterParts] using h
+    | cons r rest =>
+      simp only [iterParts]
+      split
+      · exact ih visited rest h
+      · split
+        · exact ih visited rest h
+        · rename_i hnc
+          apply ih
+          rw [List.nodup_append]
+          refine ⟨h, by simp, ?_⟩
+          intro a ha b hb
+          simp at hb; subst hb
+          intro e; subst e
+          apply hnc; simpa using ha
+
+/-- **Each part exactly once**: the part names the writer iterates over are pairwise distinct,
+    whatever the relationship graph (cycles, shared targets, several relationships to one part). -/
+theorem saved_parts_nodup (L : Loaded) : (savedPartNames L).Nodup :=
+  iterParts_nodup L _ [] L.pkgRels List.nodup_nil
+
+theorem iterParts_mem (L : Loaded) (fuel : Nat) (visited : List Str) (todo : List RelX) :
+    ∀ n ∈ iterParts L fuel visited todo, n ∈ visited ∨
+      ∃ r, r.external = false ∧ r.target = n ∧
+        (r ∈ todo ∨ ∃ q ∈ L.parts, r ∈ q.rels) := by
+  induction fuel generalizing visited todo with
+  | zero => intro n hn; left; simpa [iterParts] using hn
+  | succ k ih =>
+    cases todo with
+    | nil => intro n hn; left; simpa [iterParts] using hn
+    | cons r rest =>
+      intro n hn
+      simp only [iterParts] at hn
+      split at hn
+      · rcases ih visited rest n hn with h | ⟨r', h1, h2, h3⟩
+        · exact Or.inl h
+        · exact Or.inr ⟨r', h1, h2, by rcases h3 with h | h; exact Or.inl (List.mem_cons_of_mem _ h); exact Or.inr h⟩
+      · rename_i hext
+        split at hn
+        · rcases ih visited rest n hn with h | ⟨r', h1, h2, h3⟩
+          · exact Or.inl h
+          · exact Or.inr ⟨r', h1, h2, by rcases h3 with h | h; exact Or.inl (List.mem_cons_of_mem _ h); exact Or.inr h⟩
+        · rcases ih _ _ n hn with h | ⟨r', h1, h2, h3⟩
+          · rcases List.mem_append.mp h with h | h
+            · exact Or.inl h
+            · simp at h
+              exact Or.inr ⟨r, by simpa using hext, h.symm, Or.inl (by simp)⟩
+          · refine Or.inr ⟨r', h1, h2, ?_⟩
+            rcases h3 with h | h
+            · rcases List.mem_append.mp h with h | h
+              · right
+                cases hp : partByName L r.target with
+                | none => simp [hp] at h
+                | some q =>
+                  simp only [hp] at h
+                  exact ⟨q, List.mem_of_find?_eq_some hp, h⟩
+              · exact Or.inl (List.mem_cons_of_mem _ h)
+            · exact Or.inr h
+
+/-- **Only reachable parts are written**: every written part name is the target of an internal
+    relationship of the package or of a loaded part. -/
+theorem saved_parts_are_targets (L : Loaded) (n : Str) (h : n ∈ savedPartNames L) :
+    ∃ r, r.external = false ∧ r.target = n ∧ (r ∈ L.pkgRels ∨ ∃ q ∈ L.parts, r ∈ q.rels) := by
+  rcases iterParts_mem L _ [] L.pkgRels n h with h | h
+  · cases h
+  · exact h
+
+/-! ### relationships survive the rewrite -/
+
+theorem mem_insertBy {α : Type} (lt : α → α → Bool) (x a : α) (l : List α) :
+    a ∈ insertBy lt x l ↔ a = x ∨ a ∈ l := by
+  induction l with
+  | nil => simp [insertBy]
+  | cons y ys ih =>
+    simp only [insertBy]; split
+    · simp
+    · simp [ih]; constructor
+      · rintro (h | h | h) <;> simp [h]
+      · rintro (h | h | h) <;> simp [h]
+
+theorem mem_sortBy {α : Type} (lt : α → α → Bool) (a : α) (l : List α) : a ∈ sortBy lt l ↔ a ∈ l := by
+  induction l with
+  | nil => simp [sortBy]
+  | cons x t ih =>
+    simp only [sortBy, List.foldr_cons] at ih ⊢
+    rw [mem_insertBy]; simp [ih]
+
+/-- **Same relationships, same ids, types and modes** in the rewritten rels item: it holds exactly
+    the loaded relationships (in numeric order), external targets verbatim, internal targets
+    re-expressed relative to the source part. -/
+theorem savedRels_mem (source : Str) (rs : List RelX) (r' : RelX) :
+    r' ∈ savedRels source rs ↔
+      ∃ r ∈ rs, r'.id = r.id ∧ r'.rtype = r.rtype ∧ r'.external = r.external ∧
+        r'.target = (if r.external then r.target
+                     else relativeRef r.target (baseURI source)) := by
+  simp only [savedRels, List.mem_map, mem_sortBy]
+  constructor
+  · rintro ⟨r, hr, e⟩
+    refine ⟨r, hr, ?_⟩
+    subst e; split <;> simp_all
+  · rintro ⟨r, hr, h1, h2, h3, h4⟩
+    refine ⟨r, hr, ?_⟩
+    cases hx : r.external <;> simp only [hx, Bool.false_eq_true, if_false, if_true] at h4 ⊢
+    · cases r'; cases r; simp_all
+    · cases r'; cases r; simp_all
+
+/-- **Internal targets resolve to the same part** after the rewrite: for a source part
+    `/P…/f` and a target part `/Q…` (clean names of any depth) the written relative reference
+    resolves, against the source, to exactly the target — by C19's round-trip theorem. -/
+theorem saved_target_resolves (P Q : List Str) (f : Str) (hP : Clean P) (hf : CleanSeg f)
+    (hQ : Clean Q) (r : RelX) (hr : r.external = false) (ht : r.target = render Q) :
+    ∀ r' ∈ savedRels (render (P ++ [f])) [r], resolve (render (P ++ [f])) r' = some (render Q) := by
+  intro r' hr'
+  obtain ⟨r0, hr0, _, _, _, h4⟩ := (savedRels_mem _ _ r').mp hr'
+  simp at hr0; subst hr0
+  simp only [hr, Bool.false_eq_true, if_false, ht] at h4
+  have hb := (C19.baseURI_filename_spec P f hP hf).1
+  simp only [resolve, h4, hb]
+  exact C19.fromRelRef_relativeRef P Q hP hQ
+
+/-- the same for relationships of the package itself (source `/`) -/
+theorem saved_pkg_target_resolves (Q : List Str) (hQ : Clean Q) (r : RelX)
+    (hr : r.external = false) (ht : r.target = render Q) :
+    ∀ r' ∈ savedRels ['/'] [r], resolve ['/'] r' = some (render Q) := by
+  intro r' hr'
+  obtain ⟨r0, hr0, _, _, _, h4⟩ := (savedRels_mem _ _ r').mp hr'
+  simp at hr0; subst hr0
+  simp only [hr, Bool.false_eq_true, if_false, ht] at h4
+  have hb : baseURI ['/'] = render [] := by decide
+  simp only [resolve, h4, hb]
+  exact C19.fromRelRef_relativeRef [] Q (by intro s hs; cases hs) hQ
+
+/-- non-vacuity: a two-part package with a cycle and a shared target, saved and re-loaded -/
+def demo : Phys :=
+  { defaults := [("xml".toList, "application/xml".toList)],
+    overrides := [("/a/p.xml".toList, "t/a".toList), ("/b/q.bin".toList, "t/b".toList)],
+    members := ["/a/p.xml".toList, "/b/q.bin".toList, "/extra.xml".toList],
+    rels := [(['/'], [⟨"rId1".toList, "r".toList, "a/p.xml".toList, false⟩]),
+             ("/a/p.xml".toList, [⟨"rId2".toList, "r".toList, "../b/q.bin".toList, false⟩,
+                                  ⟨"rId1".toList, "r".toList, "http://x".toList, true⟩]),
+             ("/b/q.bin".toList, [⟨"rId1".toList, "r".toList, "/a/p.xml".toList, false⟩])] }
+
+example : (match load demo true with
+    | .ok L => savedPartNames L | .error _ => []) = ["/a/p.xml".toList, "/b/q.bin".toList] := by decide
+
+end Pptx.C01
+
+namespace Pptx.C01
+open Pptx Pptx.Opc Pptx.PackUri
+
+/-! ### content types survive the rewrite -/
+
+theorem toNat_ofNat_small (n : Nat) (h : n < 0xd800) : (Char.ofNat n).toNat = n := by
+  have hv : n.isValidChar := Or.inl h
+  rw [Char.ofNat, dif_pos hv]
+  simp [Char.ofNatAux, Char.toNat]
+
+theorem lowerAscii_idem (c : Char) : lowerAscii (lowerAscii c) = lowerAscii c := by
+  unfold lowerAscii
+  split
+  · rename_i h
+    have h2 : c.toNat ≤ 90 := h.2
+    have := toNat_ofNat_small (c.toNat + 32) (by omega)
+    split
+    · rename_i h'
+      have : (Char.ofNat (c.toNat + 32)).toNat ≤ 90 := h'.2
+      have h1 : c.toNat ≥ 65 := h.1
+      omega
+    · rfl
+  · rfl
+
+theorem lowerStr_idem (s : Str) : lowerStr (lowerStr s) = lowerStr s := by
+  simp [lowerStr, List.map_map, Function.comp_def, lowerAscii_idem]
+
+/-- what the reader computes from the written item -/
+def lookupWritten (d o : List (Str × Str)) (name : Str) : Option Str :=
+  match ciLookup name o with
+  | some ct => some ct
+  | none => ciLookup (ext name) d
+
+theorem ciLookup_some_of_unique (k v : Str) (l : List (Str × Str)) (hm : (k, v) ∈ l)
+    (hu : ∀ e ∈ l, lowerStr e.1 = lowerStr k → e.2 = v) : ciLookup k l = some v := by
+  simp only [ciLookup]
+  cases hf : l.reverse.find? (fun e => lowerStr e.1 == lowerStr k) with
+  | none =>
+    have := List.find?_eq_none.mp hf (k, v) (by simpa using hm)
+    simp at this
+  | some e =>
+    have he := List.mem_of_find?_eq_some hf
+    have hp := List.find?_some hf
+    simp only [Option.map_some, Option.some.injEq]
+    exact hu e (by simpa using he) (by simpa using hp)
+
+theorem ciLookup_none (k : Str) (l : List (Str × Str))
+    (h : ∀ e ∈ l, lowerStr e.1 ≠ lowerStr k) : ciLookup k l = none := by
+  simp only [ciLookup]
+  have : l.reverse.find? (fun e => lowerStr e.1 == lowerStr k) = none := by
+    apply List.find?_eq_none.mpr
+    intro e he
+    have := h e (by simpa using he)
+    simpa using this
+  simp [this]
+
+theorem fold_ctStep (dct all : List (Str × Str)) (l : List (Str × Str)) (d0 o0 : List (Str × Str)) :
+    l.foldl (ctStep dct all) (d0, o0) =
+      ((l.filter (isDef dct all)).foldl (fun d pn => setCI (ext pn.1) pn.2 d) d0,
+       o0 ++ l.filter (fun pn => !isDef dct all pn)) := by
+  induction l generalizing d0 o0 with
+  | nil => simp
+  | cons pn rest ih =>
+    simp only [List.foldl_cons, ctStep]
+    by_cases h : isDef dct all pn = true
+    · simp only [h, if_true]; rw [ih]; simp [List.filter_cons, h]
+    · have h' : isDef dct all pn = false := by simpa using h
+      simp only [h', Bool.false_eq_true, if_false]; rw [ih]
+      simp [List.filter_cons, h', List.append_assoc]
+
+theorem oneType_all_eq (l : List Str) (h : oneType l = true) : ∀ a ∈ l, ∀ b ∈ l, a = b := by
+  cases l with
+  | nil => simp [oneType] at h
+  | cons x xs =>
+    simp only [oneType, List.all_eq_true, beq_iff_eq] at h
+    have hx : ∀ a ∈ x :: xs, a = x := by
+      intro a ha; rcases List.mem_cons.mp ha with e | e
+      · exact e
+      · exact h a e
+    intro a ha b hb; rw [hx a ha, hx b hb]
+
+/-- two Default-class parts with the same (case-insensitive) extension have the same type -/
+theorem isDef_same (dct all : List (Str × Str)) (p q : Str × Str) (hp : p ∈ all) (hq : q ∈ all)
+    (dp : isDef dct all p = true) (dq : isDef dct all q = true)
+    (he : lowerStr (ext p.1) = lowerStr (ext q.1)) : p.2 = q.2 := by
+  simp only [isDef, Bool.and_eq_true] at dp dq
+  have hall := oneType_all_eq _ dp.2
+  have mp : p.2 ∈ eligibleTypes dct all (ext p.1) := by
+    simp only [eligibleTypes, List.mem_map, List.mem_filter]
+    exact ⟨p, ⟨hp, by simp [dp.1]⟩, rfl⟩
+  have mq : q.2 ∈ eligibleTypes dct all (ext p.1) := by
+    simp only [eligibleTypes, List.mem_map, List.mem_filter]
+    exact ⟨q, ⟨hq, by simp [dq.1, he]⟩, rfl⟩
+  exact hall _ mp _ mq
+
+theorem setCI_mem (k v : Str) (l : List (Str × Str)) :
+    (lowerStr k, v) ∈ setCI k v l ∧
+    ∀ e ∈ setCI k v l, e = (lowerStr k, v) ∨ (e ∈ l ∧ e.1 ≠ lowerStr k) := by
+  simp only [setCI]
+  split
+  · rename_i hany
+    obtain ⟨e0, he0, hk⟩ := List.any_eq_true.mp hany
+    have hk : e0.1 = lowerStr k := by simpa using hk
+    constructor
+    · apply List.mem_map.mpr
+      exact ⟨e0, he0, by simp [hk]⟩
+    · intro e he
+      obtain ⟨e1, he1, rfl⟩ := List.mem_map.mp he
+      by_cases h1 : e1.1 = lowerStr k
+      · left; simp [h1]
+      · right; simp [h1]; exact he1
+  · rename_i hnone
+    constructor
+    · simp
+    · intro e he
+      rcases List.mem_append.mp he with h | h
+      · right
+        refine ⟨h, ?_⟩
+        intro hk
+        apply hnone
+        exact List.any_eq_true.mpr ⟨e, h, by simpa using hk⟩
+      · left; simpa using h
+
+/-- after folding the Default-class parts into the defaults, every entry either comes from one of
+    them (key = its lower-cased extension, value = its type) or is an untouched initial entry -/
+theorem fold_setCI_inv (defs : List (Str × Str)) (d0 : List (Str × Str)) :
+    (∀ pn ∈ defs, ∃ v, (lowerStr (ext pn.1), v) ∈ defs.foldl (fun d pn => setCI (ext pn.1) pn.2 d) d0) ∧
+    (∀ e ∈ defs.foldl (fun d pn => setCI (ext pn.1) pn.2 d) d0,
+      (∃ pn ∈ defs, e.1 = lowerStr (ext pn.1) ∧ e.2 = pn.2) ∨
+      (e ∈ d0 ∧ ∀ pn ∈ defs, e.1 ≠ lowerStr (ext pn.1))) := by
+  induction defs generalizing d0 with
+  | nil =>
+    refine ⟨?_, ?_⟩
+    · intro pn h; cases h
+    · intro e he; right; exact ⟨he, fun pn h => by cases h⟩
+  | cons p rest ih =>
+    simp only [List.foldl_cons]
+    obtain ⟨ih1, ih2⟩ := ih (setCI (ext p.1) p.2 d0)
+    obtain ⟨s1, s2⟩ := setCI_mem (ext p.1) p.2 d0
+    constructor
+    · intro pn hpn
+      rcases List.mem_cons.mp hpn with e | e
+      · subst e
+        -- the key written for `pn` is still present after the remaining steps
+        by_cases hex : ∃ q ∈ rest, lowerStr (ext q.1) = lowerStr (ext pn.1)
+        · obtain ⟨q, hq, hqe⟩ := hex
+          obtain ⟨v, hv⟩ := ih1 q hq; exact ⟨v, hqe ▸ hv⟩
+        · have hno := hex
+          -- untouched by the remaining steps: prove by a direct sub-induction
+          have keep : ∀ (l : List (Str × Str)) (d : List (Str × Str)),
+              (∀ q ∈ l, lowerStr (ext q.1) ≠ lowerStr (ext pn.1)) →
+              (lowerStr (ext pn.1), pn.2) ∈ d →
+              (lowerStr (ext pn.1), pn.2) ∈ l.foldl (fun d pn => setCI (ext pn.1) pn.2 d) d := by
+            intro l
+            induction l with
+            | nil => intro d _ h; exact h
+            | cons q t iht =>
+              intro d hne hmem
+              simp only [List.foldl_cons]
+              apply iht _ (fun x hx => hne x (List.mem_cons_of_mem _ hx))
+              simp only [setCI]
+              split
+              · apply List.mem_map.mpr
+                refine ⟨(lowerStr (ext pn.1), pn.2), hmem, ?_⟩
+                have : lowerStr (ext pn.1) ≠ lowerStr (ext q.1) := fun e => hne q (by simp) e.symm
+                simp [this]
+              · exact List.mem_append_left _ hmem
+          exact ⟨pn.2, keep rest _ (fun q hq e => hno ⟨q, hq, e⟩) s1⟩
+      · obtain ⟨v, hv⟩ := ih1 pn e; exact ⟨v, hv⟩
+    · intro e he
+      rcases ih2 e he with ⟨pn, hpn, h1, h2⟩ | ⟨hmem, hne⟩
+      · exact Or.inl ⟨pn, List.mem_cons_of_mem _ hpn, h1, h2⟩
+      · rcases s2 e hmem with h | ⟨h, hk⟩
+        · left; exact ⟨p, by simp, by simp [h], by simp [h]⟩
+        · right
+          refine ⟨h, ?_⟩
+          intro pn hpn
+          rcases List.mem_cons.mp hpn with e' | e'
+          · subst e'; exact hk
+          · exact hne pn e'
+
+theorem nodup_map_inj {α β : Type} (f : α → β) (l : List α) (h : (l.map f).Nodup) (a b : α)
+    (ha : a ∈ l) (hb : b ∈ l) (he : f a = f b) : a = b := by
+  induction l with
+  | nil => cases ha
+  | cons x xs ih =>
+    simp only [List.map_cons, List.nodup_cons] at h
+    rcases List.mem_cons.mp ha with e1 | e1 <;> rcases List.mem_cons.mp hb with e2 | e2
+    · rw [e1, e2]
+    · subst e1; exact absurd (List.mem_map.mpr ⟨b, e2, he.symm⟩) h.1
+    · subst e2; exact absurd (List.mem_map.mpr ⟨a, e1, he⟩) h.1
+    · exact ih h.2 e1 e2
+
+/-- **Every part keeps its content type**: for any list of parts whose names are distinct
+    (case-insensitively), looking each part up in the content-types item the writer composes —
+    Override by name first, else Default by extension, both case-insensitive, exactly as the
+    reader does — returns the type the part was loaded with.  This includes several parts sharing
+    an extension but not a type, upper/lower-case extensions, and types outside the default table. -/
+theorem ct_preserved (dct : List (Str × Str)) (xmlCT relsCT : Str) (parts : List (Str × Str))
+    (hnd : (parts.map fun pn => lowerStr pn.1).Nodup) (pn : Str × Str) (hpn : pn ∈ parts) :
+    lookupWritten (ctItem dct xmlCT relsCT parts).1 (ctItem dct xmlCT relsCT parts).2 pn.1 = some pn.2 := by
+  simp only [ctItem, fold_ctStep, List.nil_append]
+  -- names are unique up to case
+  have huniq : ∀ q ∈ parts, lowerStr q.1 = lowerStr pn.1 → q = pn := by
+    intro q hq he
+    exact nodup_map_inj (fun x : Str × Str => lowerStr x.1) parts hnd q pn hq hpn he
+  by_cases hd : isDef dct parts pn = true
+  · -- Default-class: no Override carries its name, the Default of its extension carries its type
+    have hnone : ciLookup pn.1 (parts.filter fun q => !isDef dct parts q) = none := by
+      apply ciLookup_none
+      intro e he hk
+      obtain ⟨he1, he2⟩ := List.mem_filter.mp he
+      have := huniq e he1 hk
+      subst this; simp [hd] at he2
+    simp only [lookupWritten, hnone]
+    obtain ⟨inv1, inv2⟩ := fold_setCI_inv (parts.filter (isDef dct parts))
+      [("rels".toList, relsCT), ("xml".toList, xmlCT)]
+    have hpd : pn ∈ parts.filter (isDef dct parts) := List.mem_filter.mpr ⟨hpn, hd⟩
+    obtain ⟨v, hv⟩ := inv1 pn hpd
+    have hval : ∀ e ∈ (parts.filter (isDef dct parts)).foldl (fun d q => setCI (ext q.1) q.2 d)
+        [("rels".toList, relsCT), ("xml".toList, xmlCT)],
+        lowerStr e.1 = lowerStr (ext pn.1) → e.2 = pn.2 := by
+      intro e he hk
+      rcases inv2 e he with ⟨q, hq, h1, h2⟩ | ⟨_, hne⟩
+      · obtain ⟨hq1, hq2⟩ := List.mem_filter.mp hq
+        rw [h2]
+        apply isDef_same dct parts q pn hq1 hpn hq2 hd
+        rw [h1, lowerStr_idem] at hk; exact hk
+      · exfalso
+        -- an entry whose key is some part's lower-cased extension … but `pn` itself is a def
+        have := hne pn hpd
+        rcases inv2 e he with ⟨q, hq, h1, _⟩ | ⟨hm, _⟩
+        · exact hne q hq h1
+        · -- initial entries have lower-case keys: "rels", "xml"
+          simp at hm
+          rcases hm with rfl | rfl
+          · apply this; simpa [lowerStr_idem] using hk ▸ (by decide : lowerStr "rels".toList = "rels".toList).symm ▸ rfl
+          · apply this; simpa [lowerStr_idem] using hk ▸ (by decide : lowerStr "xml".toList = "xml".toList).symm ▸ rfl
+    have : v = pn.2 := hval _ hv (by simp [lowerStr_idem])
+    subst this
+    -- `ciLookup` lower-cases the probe key too
+    have := ciLookup_some_of_unique (lowerStr (ext pn.1)) pn.2 _ hv (by
+      intro e he hk; exact hval e he (by rw [hk, lowerStr_idem]))
+    simp only [ciLookup, lowerStr_idem] at this ⊢
+    exact this
+  · have hd' : isDef dct parts pn = false := by simpa using hd
+    have hmem : (pn.1, pn.2) ∈ parts.filter fun q => !isDef dct parts q :=
+      List.mem_filter.mpr ⟨hpn, by simp [hd']⟩
+    have := ciLookup_some_of_unique pn.1 pn.2 _ hmem (by
+      intro e he hk
+      have := huniq e (List.mem_filter.mp he).1 hk
+      rw [this])
+    simp [lookupWritten, this]
+
+/-- **Negative theorem** (the writer before the `fix:` for F-C01-1): with two `.bin` parts of
+    different default-able types the last one decides the Default and the first re-opens with the
+    wrong content type; the fixed writer gives each an Override. -/
+theorem last_default_wins_loses_type :
+    let dct := [("bin".toList, "pml".toList), ("bin".toList, "sml".toList)]
+    let parts := [("/a.bin".toList, "pml".toList), ("/b.bin".toList, "sml".toList)]
+    lookupWritten (ctItemLastWins dct [] [] parts).1 (ctItemLastWins dct [] [] parts).2 "/a.bin".toList
+      = some "sml".toList
+    ∧ lookupWritten (ctItem dct [] [] parts).1 (ctItem dct [] [] parts).2 "/a.bin".toList
+      = some "pml".toList := by decide
 
 end Pptx.C01
